@@ -17,6 +17,31 @@ SUPERVISED_T = {"sfa"}
 MIN_LEN = {"rise": 24, "hog1d": 16, "sfa": 12, "sax": 12, "boss": 16, "iboss": 16, "cboss": 16, "muse": 16, "stsf": 20, "dwt": 8, "paa5": 5, "interp7": 2, "truncate2_6": 7}
 
 
+# other values for constructor options of the panel estimators (a flipped boolean flag is always a candidate)
+OPTION_POOL = {"n_intervals": ["random", "log", "sqrt", 0.4, 3, 6], "min_length": [1, 2, 3], "max_length": [2, 4], "min_interval": [4, 6], "acf_lag": [5, 20], "acf_min_values": [2],
+               "word_length": [2, 6], "alphabet_size": [2, 5], "window_size": [5, 8], "binning_method": ["equi-width", "equi-depth"], "num_intervals": [2, 4], "n_components": [1, 3],
+               "num_levels": [2], "fill_value": [-5.0], "threshold": [0.5, 1.0], "max_ensemble_size": [1, 5], "max_win_len_prop": [0.5], "min_window": [5], "n_parameter_samples": [3, 8],
+               "window_inc": [2], "value": [0.0], "window_length": [2, 6], "n_estimators": [1, 2, 7], "num_bins": [4], "scaling_factor": [0.5]}
+
+
+def random_variant(rng, est):
+    """set one constructor option of `est` to another value; returns a description or None when the estimator has no such option"""
+    try:
+        params = est.get_params(deep=False)
+    except Exception:  # noqa
+        return None
+    cands = [(k, not v) for k, v in params.items() if isinstance(v, bool)]
+    cands += [(k, v2) for k in params if k in OPTION_POOL for v2 in OPTION_POOL[k] if not (isinstance(params[k], type(v2)) and params[k] == v2)]
+    if not cands:
+        return None
+    k, v = cands[int(rng.integers(0, len(cands)))]
+    try:
+        est.set_params(**{k: v})
+    except Exception:  # noqa
+        return None
+    return "%s=%r" % (k, v)
+
+
 def _first_value(x):
     """a user feature of one series (no `axis` argument)"""
     return float(np.asarray(x).ravel()[0])
@@ -189,6 +214,9 @@ def canon(out):
         if out and isinstance(out[0], list):
             out = out[0]
         return [("bag", tuple(sorted((int(k), int(v)) for k, v in dict(b).items()))) for b in out]
+    if isinstance(out, pd.DataFrame) and len(out) and any(isinstance(c, dict) for c in out.iloc[0]):
+        # bags of words in a frame (one dict per cell)
+        return [[("bag", tuple(sorted((int(k), int(v)) for k, v in dict(c).items()))) if isinstance(c, dict) else ("cell", repr(c)) for c in out.iloc[i]] for i in range(len(out))]
     if isinstance(out, pd.DataFrame) and not any(isinstance(c, (pd.Series, np.ndarray, list)) for c in (out.iloc[0] if len(out) else [])):
         return [[np.asarray(r, dtype=float).ravel()] for r in out.to_numpy()]     # plain table: one vector per instance
     if isinstance(out, pd.DataFrame):
@@ -219,6 +247,10 @@ def rows_equal(r1, r2, tol=1e-9):
     if len(r1) != len(r2):
         return False
     for a, b in zip(r1, r2):
+        if isinstance(a, tuple) or isinstance(b, tuple):
+            if a != b:
+                return False
+            continue
         if a.shape != b.shape or not np.allclose(a, b, rtol=tol, atol=tol, equal_nan=True):
             return False
     return True
